@@ -211,7 +211,7 @@ pub fn check_file(name: &str, text: &str, acc: &mut Acc) -> bool {
 }
 
 /// deliberately sensitive shapes (DESIGN.md C19)
-fn shaped(k: u64, rng: &mut Rng) -> String {
+fn shaped(k: u64, rng: &Rng) -> String {
     let lib = "library L%N% {\n    function helper%N%(uint256 a) internal pure returns (uint256) {\n        return a + 1;\n    }\n}\n";
     let iface = "interface I%N% {\n    function ping%N%(uint256 a) external returns (uint256);\n}\n";
     let free = "function free%N%(uint256 a) pure returns (uint256) {\n    return a * 2;\n}\n";
